@@ -669,6 +669,16 @@ def sx_in(item, container):
         return T.SStr([ord(ch) for ch in container]).__contains__(item)
     if _real_isinstance(container, (_real_bytes, _real_bytearray)) and (V.is_byteslike(item) or _real_isinstance(item, V.SInt)) and not _real_isinstance(item, (_real_bytes, _real_bytearray, _real_int)):
         return V.SBytes(list(container)).__contains__(item)
+    if _real_isinstance(container, (range, SRange)) and _real_isinstance(item, PROXY_INT):
+        # arithmetic membership (CPython would iterate the range comparing with ==)
+        st, sp, step = container.start, container.stop, container.step
+        if step > 0:
+            inside = V.sand(item >= st, item < sp)
+        else:
+            inside = V.sand(item <= st, item > sp)
+        if step not in (1, -1):
+            inside = V.sand(inside, (item - st) % step == 0)
+        return _real_bool(inside)
     return item in container
 
 
